@@ -28,6 +28,17 @@ def _guid_le(s):
     return uuid.UUID(s).bytes_le
 
 
+def _scrub(b):
+    """Random filler must not spell another format's signature by accident (a 16-bit MBR signature at 510 turns up
+    once in 65536 images): the generators make single-format images unless a polyglot is asked for."""
+    if len(b) >= 512 and bytes(b[510:512]) == b'\x55\xaa':
+        b[510] = 0
+    if len(b) >= 0x44 and bytes(b[0x40:0x44]) == b'\x7f\x10\xda\xbe':
+        b[0x40] = 0
+    if len(b) >= 32774 and bytes(b[32769:32774]) in (b'CD001', b'NSR02', b'NSR03'):
+        b[32769] = 0
+
+
 # ----------------------------------------------------------------------
 # builders
 # ----------------------------------------------------------------------
@@ -41,6 +52,7 @@ def qcow2(p):
     h = bytearray(max(total, 512))
     if p.get('filler_seed') is not None:
         h[:] = _rand_bytes(('qcow', p['filler_seed']), len(h))
+        _scrub(h)
     h[0:32] = struct.pack('>4sIQIIQ', magic, version & 0xffffffff, bf_offset,
                           p.get('bf_size', 0) & 0xffffffff, p.get('cluster_bits', 16), size)
     h[72:80] = struct.pack('>Q', feat)
@@ -79,9 +91,7 @@ def simple512(fmt, p):
     b = bytearray(max(total, 512))
     if p.get('filler_seed') is not None:
         b[:] = _rand_bytes((fmt, p['filler_seed']), len(b))
-        if fmt != 'gpt':
-            # keep other signatures out of random filler: not needed, collisions are astronomically unlikely
-            pass
+        _scrub(b)
     size = p.get('size', 1 << 30)
     if fmt == 'vhd':
         b[0:8] = p.get('magic', 'conectix').encode('latin-1')
@@ -248,7 +258,9 @@ def vmdk(p):
     hdr = struct.pack('<4sIIQQQQIQQ', magic, ver & 0xffffffff, 3, sectors, 128, desc_sec, desc_num, 512, 0, gd)
     hdr = hdr.ljust(512, b'\0')
     if p.get('hdr_filler_seed') is not None:
-        hdr = hdr[:64] + _rand_bytes(('vmdkhdr', p['hdr_filler_seed']), 448)
+        filler = bytearray(hdr[:64] + _rand_bytes(('vmdkhdr', p['hdr_filler_seed']), 448))
+        _scrub(filler)
+        hdr = bytes(filler)
     region_len = min(desc_num * 512, (1 << 20) - 1)
     body = desc.ljust(min(desc_num, 4096) * 512, b'\0')
     img = hdr + body
